@@ -12,7 +12,25 @@ pub mod sync {
     pub use crate::vlock::{RwLock, Mutex, RwLockReadGuard, RwLockWriteGuard, MutexGuard};
 }
 pub mod time { pub use std::time::Duration; pub use crate::vclock::{Instant, SystemTime, UNIX_EPOCH}; }
-pub mod thread { pub fn sleep(d: std::time::Duration) { crate::vclock::on_sleep(d); } }
+pub mod thread {
+    pub fn sleep(d: std::time::Duration) { crate::vclock::on_sleep(d); }
+    /// model of thread::spawn used by the S3 loaders (one thread per database, joined at once): the closure runs to
+    /// completion at the spawn point; a panic inside it surfaces there instead of at join().unwrap()
+    pub struct JoinHandle<T> { pub v: Option<T> }
+    impl<T> JoinHandle<T> { pub fn join(mut self) -> Result<T, Box<dyn std::any::Any + Send + 'static>> { Ok(self.v.take().unwrap()) } }
+    pub fn spawn<F: FnOnce() -> T, T>(f: F) -> JoinHandle<T> { JoinHandle { v: Some(f()) } }
+}
+pub mod hash {
+    pub use std::hash::{Hash, Hasher};
+    /// model of DefaultHasher: the digest is an uninterpreted function of the bytes fed in (vsym::hash_u64: one solver
+    /// integer per distinct content), so every assignment of keys to partitions is covered
+    pub struct DefaultHasher { pub bytes: Vec<u8> }
+    impl DefaultHasher { pub fn new() -> DefaultHasher { DefaultHasher { bytes: Vec::new() } } }
+    impl Hasher for DefaultHasher {
+        fn write(&mut self, b: &[u8]) { let mut j = 0; while j < b.len() { self.bytes.push(b[j]); j += 1; } }
+        fn finish(&self) -> u64 { vsym::hash_u64(&self.bytes) }
+    }
+}
 pub mod fs { pub use crate::vfs::{File, OpenOptions, metadata, rename, remove_file, create_dir_all, read_dir, DirEntry, Metadata}; }
 pub mod io { pub use std::io::{Read, Write, Seek, SeekFrom, Error, ErrorKind, Result}; pub use crate::vbuf::BufWriter; pub mod prelude { pub use std::io::prelude::*; } }
 pub mod os { pub mod unix { pub mod fs { pub use crate::vfs::FileExt; } } }
